@@ -10,12 +10,12 @@ namespace Fc.PyLite
 macro "pylite_eval" : tactic =>
   `(tactic| simp [Fn.run, Fn.runGen, Fn.flow, initEnv, execBlock, exec, eval, evalList, withVal, withBool, bindAll,
       St.set, Res.bind, Res.map, getAttr, binop, cmpop, ordOp, memOf, Val.eqv, Val.eqv.eqvList, Val.truthy,
-      Val.asList, Val.asInt, isNone, builtin, List.lookup])
+      Val.asList, Val.asInt, isNone, builtin, indexOf, listSet, intsOf, anyM, allM, compM, forLoop, List.lookup])
 
 macro "pylite_eval_at" h:ident : tactic =>
   `(tactic| simp [Fn.run, Fn.runGen, Fn.flow, initEnv, execBlock, exec, eval, evalList, withVal, withBool, bindAll,
       St.set, Res.bind, Res.map, getAttr, binop, cmpop, ordOp, memOf, Val.eqv, Val.eqv.eqvList, Val.truthy,
-      Val.asList, Val.asInt, isNone, builtin, List.lookup] at $h:ident)
+      Val.asList, Val.asInt, isNone, builtin, indexOf, listSet, intsOf, anyM, allM, compM, forLoop, List.lookup] at $h:ident)
 
 /-! ### `all(...)`, `any(...)`, comprehensions over an embedded list -/
 
@@ -48,9 +48,45 @@ theorem compM_map_ok {α : Type} (f : Val → Res (Option Val)) (emb : α → Va
 def intList (l : List Int) : Val := .list (l.map .int)
 def natList (l : List Nat) : Val := .list (l.map fun (n : Nat) => Val.int (n : Int))
 
-theorem intsOf_map_int (l : List Int) : intsOf (l.map .int) = some l := by
+theorem intsOf_map {α : Type} (f : α → Int) (l : List α) :
+    intsOf (l.map fun a => Val.int (f a)) = some (l.map f) := by
   induction l with
   | nil => rfl
   | cons a r ih => simp [intsOf, Val.asInt, ih]
+
+/-- a comprehension without filter whose element is always an integer -/
+theorem compM_map_int {α : Type} (f : Val → Res (Option Val)) (emb : α → Val) (g : α → Int)
+    (h : ∀ a, f (emb a) = .ok (some (.int (g a)))) (l : List α) :
+    compM f (l.map emb) = .ok (l.map fun a => Val.int (g a)) := by
+  rw [compM_map_ok f emb (fun a => some (.int (g a))) h l]
+  congr 1
+  induction l with
+  | nil => rfl
+  | cons a r ih => simp [ih]
+
+theorem natList_length (l : List Nat) : (l.map fun (n : Nat) => Val.int (n : Int)).length = l.length := by simp
+
+/-- `xs[-1]` on a list of naturals -/
+theorem indexOf_natList_last (s : List Nat) :
+    indexOf (natList s) (.int (-1)) =
+      match s.getLast? with
+      | some x => .ok (.int (x : Int))
+      | none => .raise "IndexError" := by
+  unfold natList indexOf
+  cases hs : s.getLast? with
+  | none =>
+    have : s = [] := by simpa using hs
+    subst this
+    rfl
+  | some x =>
+    have hne : s ≠ [] := by intro h; subst h; simp at hs
+    have hlen : 0 < s.length := List.length_pos_iff.mpr hne
+    have hk : ((-1 : Int) + ((s.map fun (n : Nat) => Val.int (n : Int)).length : Int)).toNat = s.length - 1 := by
+      simp only [List.length_map]; omega
+    have hlast : s[s.length - 1]? = some x := by rw [← List.getLast?_eq_getElem?]; exact hs
+    have hnn : ¬ ((-1 : Int) + ((s.map fun (n : Nat) => Val.int (n : Int)).length : Int) < 0) := by
+      simp only [List.length_map]; omega
+    simp only [show ((-1 : Int) < 0) from by decide, if_true, hk, List.getElem?_map, hlast, Option.map_some, hnn,
+      if_false]
 
 end Fc.PyLite
